@@ -8,6 +8,7 @@ import (
 	"fmt"
 	"go/types"
 	"strconv"
+	"strings"
 
 	"golang.org/x/tools/go/ssa"
 )
@@ -129,6 +130,16 @@ func (w *World) registerEndpointIntrinsics() {
 		u := fmt.Sprintf("http://verif-endpoint-%d.invalid/x", e.freshCtr)
 		payload := mkUF("json_payload", SStr, mkInt(int64(e.freshCtr)))
 		e.hidden["json:"+payload.String()] = a[1]
+		e.hidden["http:"+u] = &httpEndpoint{status: a[0].(*Term), body: payload}
+		return mkStr(u)
+	}
+	// verifHTTPForm(status, values) string: an endpoint answering with a urlencoded body
+	I["@verifHTTPForm"] = func(e *Exec, fn *ssa.Function, a []Value) Value {
+		e.freshCtr++
+		u := fmt.Sprintf("http://verif-endpoint-%d.invalid/x", e.freshCtr)
+		payload := mkUF("form_payload", SStr, mkInt(int64(e.freshCtr)))
+		e.hidden["form:"+payload.String()] = a[1]
+		e.hidden["notjson:"+payload.String()] = true
 		e.hidden["http:"+u] = &httpEndpoint{status: a[0].(*Term), body: payload}
 		return mkStr(u)
 	}
@@ -293,4 +304,231 @@ func (w *World) registerRedisIntrinsics() {
 		return tuple(&Pointer{}, e.newError("dial tcp: connection refused"))
 	}
 	I["(*"+rl+".Lock).Release"] = func(e *Exec, fn *ssa.Function, a []Value) Value { return nilIface }
+}
+
+// ---- encoding/json.Unmarshal of a harness-built JSON value into Go data (decoded-result
+// boundary): the documented encoding/json rules for the target kinds the repository uses ----
+
+// jsonFieldName: the JSON key of struct field i ("" = skipped).
+func jsonFieldName(st *types.Struct, i int) string {
+	f := st.Field(i)
+	if !f.Exported() {
+		return ""
+	}
+	tag := reflectStructTag(st.Tag(i), "json")
+	if tag == "-" {
+		return ""
+	}
+	if j := strings.Index(tag, ","); j >= 0 {
+		tag = tag[:j]
+	}
+	if tag == "" {
+		return f.Name()
+	}
+	return tag
+}
+
+func reflectStructTag(tag, key string) string {
+	for tag != "" {
+		i := 0
+		for i < len(tag) && tag[i] == ' ' {
+			i++
+		}
+		tag = tag[i:]
+		if tag == "" {
+			break
+		}
+		i = 0
+		for i < len(tag) && tag[i] > ' ' && tag[i] != ':' && tag[i] != '"' {
+			i++
+		}
+		if i == 0 || i+1 >= len(tag) || tag[i] != ':' || tag[i+1] != '"' {
+			break
+		}
+		name := tag[:i]
+		tag = tag[i+1:]
+		i = 1
+		for i < len(tag) && tag[i] != '"' {
+			if tag[i] == '\\' {
+				i++
+			}
+			i++
+		}
+		if i >= len(tag) {
+			break
+		}
+		q := tag[:i+1]
+		tag = tag[i+1:]
+		if name == key {
+			if v, err := strconv.Unquote(q); err == nil {
+				return v
+			}
+			return ""
+		}
+	}
+	return ""
+}
+
+// decodeJSON stores the JSON value src into *dst (of type t); mismatch is set when a value
+// has the wrong JSON type for its target (encoding/json keeps decoding and reports the
+// first such error at the end).
+func (e *Exec) decodeJSON(src *IfaceVal, dst *Pointer, t types.Type, mismatch *bool) {
+	kind := e.jsonKind(src)
+	if kind == "nil" {
+		return // JSON null leaves the target as it is
+	}
+	switch u := under(t).(type) {
+	case *types.Pointer:
+		obj := e.newObject(u.Elem(), e.zero(u.Elem()), "json target")
+		np := &Pointer{obj: obj}
+		e.store(dst, np)
+		e.decodeJSON(src, np, u.Elem(), mismatch)
+	case *types.Struct:
+		if kind != "map" {
+			*mismatch = true
+			return
+		}
+		m := src.val.(*MapVal)
+		for i := 0; i < u.NumFields(); i++ {
+			name := jsonFieldName(u, i)
+			if name == "" {
+				continue
+			}
+			j := e.mapFind(m, mkStr(name))
+			if j < 0 {
+				continue
+			}
+			fv, ok := m.vals[j].(*IfaceVal)
+			if !ok {
+				e.unsupported("JSON object value that is not an interface value")
+			}
+			e.decodeJSON(fv, dst.sub(i), u.Field(i).Type(), mismatch)
+		}
+	case *types.Basic:
+		switch {
+		case u.Info()&types.IsString != 0:
+			if kind != "string" {
+				*mismatch = true
+				return
+			}
+			e.store(dst, src.val)
+		case u.Info()&types.IsBoolean != 0:
+			if kind != "bool" {
+				*mismatch = true
+				return
+			}
+			e.store(dst, src.val)
+		default:
+			e.unsupported("json.Unmarshal into %v", t)
+		}
+	case *types.Slice:
+		if kind != "slice" {
+			*mismatch = true
+			return
+		}
+		elems := e.sliceElems(src.val.(*SliceVal))
+		arr := e.newObject(types.NewArray(u.Elem(), int64(len(elems))), &ArrayVal{elems: make([]Value, len(elems))}, "json slice")
+		for i := range elems {
+			arr.val.(*ArrayVal).elems[i] = e.zero(u.Elem())
+		}
+		for i, x := range elems {
+			xv, ok := x.(*IfaceVal)
+			if !ok {
+				e.unsupported("JSON list element that is not an interface value")
+			}
+			e.decodeJSON(xv, &Pointer{obj: arr, path: []int{i}}, u.Elem(), mismatch)
+		}
+		e.store(dst, &SliceVal{arr: arr, off: 0, n: len(elems), cap: len(elems)})
+	case *types.Map:
+		if kind != "map" {
+			*mismatch = true
+			return
+		}
+		if !types.IsInterface(u.Elem()) {
+			e.unsupported("json.Unmarshal into %v", t)
+		}
+		e.store(dst, src.val)
+	case *types.Interface:
+		e.store(dst, src)
+	default:
+		e.unsupported("json.Unmarshal into %v", t)
+	}
+}
+
+func (e *Exec) unmarshalInto(claims Value, target Value) Value {
+	iv, ok := target.(*IfaceVal)
+	if !ok || iv.typ == nil {
+		return e.newError("json: Unmarshal(nil)")
+	}
+	pt, ok := under(iv.typ).(*types.Pointer)
+	p, ok2 := iv.val.(*Pointer)
+	if !ok || !ok2 || isNilPtr(p) {
+		return e.newError("json: Unmarshal(non-pointer)")
+	}
+	m, ok := claims.(*MapVal)
+	if !ok {
+		e.unsupported("JSON payload that is not an object")
+	}
+	mismatch := false
+	src := &IfaceVal{typ: types.NewMap(types.Typ[types.String], emptyIface), val: m}
+	e.decodeJSON(src, p, pt.Elem(), &mismatch)
+	if mismatch {
+		return e.newError("json: cannot unmarshal value into Go value of the target type")
+	}
+	return nilIface
+}
+
+func (w *World) registerJSONDecodeIntrinsics() {
+	I := w.intrinsics
+	I["encoding/json.Unmarshal"] = func(e *Exec, fn *ssa.Function, a []Value) Value {
+		b := e.bytesTerm(a[0])
+		m, ok := e.hidden["json:"+b.String()]
+		if !ok {
+			// not a JSON document the harness built (e.g. a urlencoded body)
+			if nj, ok := e.hidden["notjson:"+b.String()]; ok && nj.(bool) {
+				return e.newError("invalid character looking for beginning of value")
+			}
+			e.unsupported("json.Unmarshal of bytes that are not a harness-built JSON payload")
+		}
+		return e.unmarshalInto(m.(Value), a[1])
+	}
+	// go-oidc: a parse-only verifier (signature, issuer, audience, expiry checks switched off by
+	// the harness) hands back the token with its claims; Claims decodes them
+	oidcp := "github.com/coreos/go-oidc/v3/oidc"
+	I[oidcp+".NewVerifier"] = func(e *Exec, fn *ssa.Function, a []Value) Value {
+		vt := e.errorsPkgType(oidcp, "IDTokenVerifier")
+		return &Pointer{obj: e.newObject(vt, e.zero(vt), "parse-only verifier")}
+	}
+	I["(*"+oidcp+".IDTokenVerifier).Verify"] = func(e *Exec, fn *ssa.Function, a []Value) Value {
+		raw := a[2].(*Term)
+		var payload *Term
+		var walk func(t *Term)
+		walk = func(t *Term) {
+			if t.op == "uf:b64enc_rawurl" && len(t.args) == 1 && t.args[0].op == "uf:json_payload" {
+				payload = t.args[0]
+			}
+			for _, x := range t.args {
+				walk(x)
+			}
+		}
+		walk(raw)
+		it := e.errorsPkgType(oidcp, "IDToken")
+		if payload == nil {
+			return tuple(&Pointer{}, e.newError("oidc: malformed jwt"))
+		}
+		obj := e.newObject(it, e.zero(it), "id token")
+		e.hidden[fmt.Sprintf("idtokenclaims:%d", obj.id)] = e.hidden["json:"+payload.String()]
+		return tuple(&Pointer{obj: obj}, nilIface)
+	}
+	I["(*"+oidcp+".IDToken).Claims"] = func(e *Exec, fn *ssa.Function, a []Value) Value {
+		p := a[0].(*Pointer)
+		if isNilPtr(p) {
+			e.panicHere("nil pointer dereference (nil *oidc.IDToken)")
+		}
+		m, ok := e.hidden[fmt.Sprintf("idtokenclaims:%d", p.obj.id)]
+		if !ok || m == nil {
+			return e.newError("oidc: claims not set")
+		}
+		return e.unmarshalInto(m.(Value), a[1])
+	}
 }
